@@ -38,24 +38,27 @@ _NODE = re.compile(r'^(-?\d+) \[label="((?:[^"\\]|\\.)*)"(.*)$')
 _EDGE = re.compile(r'^(-?\d+) -> (-?\d+) \[label="([^"]*)"')
 
 def load_dot(path):
-    """Parse a TLC `-dump dot,actionlabels` file -> (states {id: {var: value}}, succ {id: [id]}, [initial ids])."""
-    states, succ, inits = {}, {}, []
+    """Parse a TLC `-dump dot,actionlabels` file -> (states {id: {var: value}}, succ {id: [id]}, [initial ids]).
+    Node ids are made canonical (rank of the state's text), so the result does not depend on TLC's fingerprint
+    seed or worker scheduling."""
+    label, edges, init_raw = {}, [], []
     with open(path) as f:
         for line in f:
             m = _EDGE.match(line)
             if m:
-                a, b = m.group(1), m.group(2)
-                lst = succ.setdefault(a, [])
-                if b not in lst:
-                    lst.append(b)
+                edges.append((m.group(1), m.group(2)))
                 continue
             m = _NODE.match(line)
             if m:
-                nid = m.group(1)
-                states[nid] = tlaparse.parse_conj(_dot_unescape(m.group(2)))
+                label[m.group(1)] = m.group(2)
                 if "style = filled" in m.group(3):
-                    inits.append(nid)
-    return states, succ, inits
+                    init_raw.append(m.group(1))
+    rank = {nid: i for i, (nid, _) in enumerate(sorted(label.items(), key=lambda kv: kv[1]))}
+    states = {rank[nid]: tlaparse.parse_conj(_dot_unescape(txt)) for nid, txt in label.items()}
+    succ = {}
+    for a, b in sorted({(rank[a], rank[b]) for a, b in edges}):
+        succ.setdefault(a, []).append(b)
+    return states, succ, sorted(rank[i] for i in init_raw)
 
 def edge_cover(inits, succ, rng, max_steps, max_len=64):
     """Paths (lists of node ids, each starting at an initial state) that together traverse every edge of the graph,
@@ -393,7 +396,7 @@ def replay_behaviour(world, steps):
     world.reset(steps[0]["act"]["size"])
     out = []
     forgiven = set()           # commands whose missing callback has already been reported
-    stats = {"steps": 0, "launched": 0, "callbacks": 0, "drops": 0}
+    stats = {"steps": 0, "launched": 0, "callbacks": 0, "drops": 0, "nt": []}
     try:
         for i, st in enumerate(steps):
             act, exp = st["act"], st["exp"]
@@ -406,11 +409,14 @@ def replay_behaviour(world, steps):
             fired_exp = act.get("fired", [])
             fired_got = world.step_fired
             stats["callbacks"] += len(fired_got)
+            if fired_got or act.get("fired"):
+                stats["nt"].append(i)
             if act["name"] in ("Process", "Terminate"):
                 dropped = [f for f in fired_exp if f[2] == 999]
                 stats["drops"] += len(dropped)
                 missing = [f for f in dropped if f not in fired_got]
-                if missing and [f for f in fired_exp if f not in missing] == fired_got:
+                gone = all(f[0] not in got["queue"] and f[0] not in got["running"] for f in missing)
+                if missing and gone and [f for f in fired_exp if f not in missing] == fired_got:
                     kinds = sorted({world.kinds[f[0]] for f in missing})
                     if act["name"] == "Process":
                         key = "C42_ExactlyOneCallback:no-callback:queued-jobs-submit-dropped-by-process-when-stopping"
@@ -495,16 +501,24 @@ def run(ctx):
         dot = os.path.join(ctx.scratch, "subproc-walk")
         check_model(ctx, "MC_SubProc_walk", extra=["-dump", "dot,actionlabels", dot])
         states, succ, inits = load_dot(dot + ".dot")
-        paths, n_edges, n_cov = edge_cover(inits, succ, ctx.rng, max_steps=9000 if quick else 10**9)
+        paths, n_edges, n_cov = edge_cover(inits, succ, ctx.rng, max_steps=5000 if quick else 10**9)
         behaviours = [behaviour_of([states[n] for n in p]) for p in paths]
-        n_sim = 150 if quick else 4000
+        n_sim = 100 if quick else 4000
         behaviours += _sim(ctx, "MC_SubProc" if quick else "MC_SubProc_thorough", n_sim, 16 if quick else 20)
         del states, succ
         found = {}
+        acts = {}
+        for b in behaviours:
+            for st in b:
+                acts[st["act"]["name"]] = acts.get(st["act"]["name"], 0) + 1
+        ctx.coverage["actions_replayed"] = acts
         tot = {"steps": 0, "launched": 0, "callbacks": 0, "drops": 0}
+        nontrivial = set()
         for steps, (res, stats) in zip(behaviours, replay_parallel(ctx, behaviours, 4 if quick else 8)):
             for k in tot:
                 tot[k] += stats[k]
+            for i in stats["nt"]:
+                nontrivial.add(hash(json.dumps([x["act"] for x in steps[: i + 1]], sort_keys=True)))
             for key, text, idx in res:
                 rank = (idx, len(json.dumps([x["act"] for x in steps[: idx + 1]])))
                 if key not in found or rank < found[key][1]:
@@ -522,12 +536,13 @@ def run(ctx):
     cov = ctx.coverage
     cov["traces_validated_against_impl"] = len(behaviours)
     cov["evaluations"] = tot["steps"]
-    cov["distinct_nontrivial"] = tot["callbacks"]
+    cov["distinct_nontrivial"] = len(nontrivial)
     cov["rule"] = ("behaviours = seeded edge cover of the dumped state graph of MC_SubProc_walk (2 commands, sizes 1-2; "
                    f"{n_cov}/{n_edges} transitions covered) + {n_sim} `tlc -simulate` traces of the larger model; every step runs on "
-                   "the real SubProcPool with real child processes; evaluations = replayed steps; distinct_nontrivial = callbacks "
-                   f"observed and compared ({tot['launched']} children launched, {tot['drops']} specified 999-callbacks for "
-                   "commands dropped from the queue by process()/terminate())")
+                   "the real SubProcPool with real child processes; evaluations = replayed steps; distinct_nontrivial = distinct "
+                   f"histories ending in a step that delivers (or must deliver) a callback; {tot['callbacks']} callbacks observed and "
+                   f"compared, {tot['launched']} children launched, {tot['drops']} specified 999-callbacks for commands dropped from "
+                   "the queue by process()/terminate()")
     cov["samples"] = [[_fmt_act(s["act"]) for s in b] for b in behaviours[:: max(1, len(behaviours) // 4)][:4]]
     cov["exhaustive"] = (n_cov == n_edges)
     cov["checker_cmd"] = "tlc MC_SubProc*.cfg (exhaustive incl. liveness; -dump dot; -simulate) + replay on cylc.flow.subprocpool.SubProcPool"
